@@ -50,6 +50,15 @@ func (vc *VC) contractEnv(results []Val) *Env {
 		pt := fv.Type().(*types.Pointer).Elem()
 		env.names[fv.Name()] = envEntry{lazy: func(s *State) Val { return vc.derefPtr(b, pt, s) }}
 	}
+	if vc.closureParam != nil {
+		for j, fv := range vc.closureParam.Fn.FreeVars {
+			if j < len(vc.closureParam.Fs) {
+				b := vc.closureParam.Fs[j]
+				pt := fv.Type().(*types.Pointer).Elem()
+				env.names[fv.Name()] = envEntry{lazy: func(s *State) Val { return vc.derefPtr(b, pt, s) }}
+			}
+		}
+	}
 	if results != nil {
 		rn := resultNames(vc.fn.Signature, nil)
 		for i, r := range results {
